@@ -14,6 +14,8 @@ PW = {
     "empty": b"",
     "nul": b"pass\x00word",
     "long": bytes(range(256)) * 40,
+    "long_tail": bytes(range(256)) * 39 + bytes(range(255)) + b"\x00",   # 10 KiB, differs from "long" in the last byte only
+    "long_plus": bytes(range(256)) * 40 + b"x",                           # "long" with one byte appended
     "a": b"correct horse",
     "a_bit": b"correct horsd",        # one bit away from "a"
     "a_trail": b"correct horse\x00",  # one trailing byte
@@ -103,7 +105,7 @@ def run(ctx):
     ctx.assumptions += ["scrypt has no practical second pre-images (cryptographic strength is assumed, not modelled)",
                         "a textual variant that parses to the identical (method, version, params, salt+digest) fields is the same hash, not a corruption",
                         "parameter edits are capped so that no call asks scrypt for more than 64 MiB"]
-    pws = list(PW) if not ctx.quick else ["empty", "nul", "a", "a_bit", "a_trail", "a_case"]
+    pws = list(PW) if not ctx.quick else ["empty", "nul", "a", "a_bit", "a_trail", "a_case", "long", "long_tail", "long_plus"]
     consts = "CONSTANTS\n Passwords = {%s}\n Kinds = {%s}\n" % (", ".join('"%s"' % p for p in pws), ", ".join('"%s"' % k for k in KINDS))
     r = ctx.mc("Auth", "SPECIFICATION Spec\n" + consts.replace("Passwords = {%s}" % ", ".join('"%s"' % p for p in pws), 'Passwords = {"a", "a_bit", "empty"}')
                + "INVARIANT FreshSalts\nINVARIANT RightVerifies\nCHECK_DEADLOCK FALSE\n", need=["Hash", "Verify", "VerifyCorrupt"], label="Auth")
